@@ -202,8 +202,13 @@ type flat struct {
 	enc func(vals []val) ([]byte, error)
 	// dec decodes through the code under test (nil: the structure has no decoder).
 	dec func(b []byte) ([]val, error)
-	// decExact: decoder demands len == size; otherwise it decodes a prefix of a longer slice.
-	decExact bool
+	// mayRefuse (optional) says that a stricter, still correct encoder may refuse these values
+	// (e.g. a PHIT writer that insists on HobType 1, a PAGE_INFO writer that refuses reserved IMI
+	// bits): a refusal is then counted as class refused-strict instead of being reported.
+	mayRefuse func(vals []val) bool
+	// canon (optional): field index -> the value the specification prescribes for it; drawn half of
+	// the time so that most cases do not depend on an encoder accepting arbitrary values there.
+	canon map[int]uint64
 	// put, when set, writes into a caller-provided buffer (used for short-buffer refusal).
 	put func(vals []val, buf []byte) error
 }
@@ -240,6 +245,9 @@ func (s *flat) genVal(t *rapid.T, i int) (val, string) {
 	f := s.flds[i]
 	switch f.kind {
 	case fU:
+		if cv, ok := s.canon[i]; ok && rapid.Bool().Draw(t, f.name+"_canon") {
+			return val{u: cv}, "canonical"
+		}
 		u, c := genUint(t, 8*(f.hi-f.lo), f.name)
 		return val{u: u}, c
 	case fGUID, fBytes:
@@ -290,7 +298,7 @@ func putEnc(size int, put func(vals []val, buf []byte) error) func(vals []val) (
 func (s *flat) rule() {
 	dec := "no decoder: (i) skipped"
 	if s.dec != nil {
-		dec = "(i) decode(encode(v)) == v; (iv) for byte strings near a valid encoding (truncated at every k, extended, arbitrary content) decode ok => encode(decode(b)) == b[:size], truncated => refused (a panic of an unguarded FromBytes helper is recorded as class refused-by-panic, not a violation)"
+		dec = "(i) decode(encode(v)) == v; (iv) for byte strings near a valid encoding (truncated at every k, extended, arbitrary content) decode ok => encode(decode(b)) == b[:size], truncated => refused (a panic of an unguarded FromBytes helper is recorded as class refused-by-panic, not a violation); a refusal of an overlong or same-size string is a legal stricter decoder (classes refused-overlong / refused-strict) because encodings of encodable values are judged by the round trip; same-size strings count as trivial"
 	}
 	ev.Rule(s.name, fmt.Sprintf("%s (%d bytes, table from %s): every field drawn boundary-biased {0,max,max-k,single bit,byte patterns,random}; oracle (ii) encoding == image built from the harness offset table, package Sizeof constant == spec size, nothing written past the size, changing one field changes exactly its table range to the LE value; too-small output buffers refused; %s; non-trivial = some field at a range boundary or byte string within edit distance 2 of valid; distinct = (field/edit class, value class)", s.name, s.size, s.what, dec))
 }
@@ -338,6 +346,10 @@ func runFlat(t *testing.T, s *flat, n int) {
 			return
 		}
 		if err != nil {
+			if s.mayRefuse != nil && s.mayRefuse(vals) {
+				ev.Case(s.name, false, "", "value/refused-strict", nil)
+				return
+			}
 			ev.Violation(t, "C18/in-range-refused/"+s.name, "%s: in-range value %v refused: %v", s.name, vals, err)
 			return
 		}
@@ -364,6 +376,10 @@ func runFlat(t *testing.T, s *flat, n int) {
 		vals2[fi] = nv
 		var got2 []byte
 		err, pan = call(func() (e error) { got2, e = s.enc(vals2); return })
+		if pan == nil && err != nil && s.mayRefuse != nil && s.mayRefuse(vals2) {
+			ev.Case(s.name, false, "", "value/probe-refused-strict", nil)
+			return
+		}
 		if pan != nil || err != nil {
 			ev.Violation(t, "C18/in-range-refused/"+s.name, "%s: in-range value %v refused: err=%v panic=%v", s.name, vals2, err, pan)
 			return
@@ -427,6 +443,8 @@ func (s *flat) checkBytes(t ev.TB, edit string, b []byte) {
 	var back []val
 	err, pan := call(func() (e error) { back, e = s.dec(b); return })
 	class := "bytes/" + edit
+	// structures whose every bit pattern is a value: same-size strings only repeat oracles (i)/(ii)
+	nontrivial := len(b) != s.size
 	switch {
 	case pan != nil:
 		if len(b) >= s.size {
@@ -436,22 +454,22 @@ func (s *flat) checkBytes(t ev.TB, edit string, b []byte) {
 		ev.Note("%s: a buffer shorter than %d bytes makes the decoder panic (counted as refused; totality is C07/C08)", s.name, s.size)
 		class += "/refused-by-panic"
 	case err != nil:
-		if len(b) == s.size {
-			ev.Violation(t, "C18/valid-encoding-refused/"+s.name, "%s: %d-byte string %s refused: %v (every bit pattern of this structure is a value)", s.name, len(b), hx(b), err)
-			return
+		// The statement demands refusal of truncated strings. Whether a decoder takes a prefix of a
+		// longer slice or insists on the exact size, and whether it validates more than the layout
+		// (a magic number, say), is its own business: encodings of values the encoder accepts are
+		// judged by the round trip in runFlat, not here.
+		nontrivial = len(b) != s.size
+		switch {
+		case len(b) == s.size:
+			class += "/refused-strict"
+		case len(b) > s.size:
+			class += "/refused-overlong"
+		default:
+			class += "/refused"
 		}
-		if len(b) > s.size && !s.decExact {
-			ev.Violation(t, "C18/valid-encoding-refused/"+s.name, "%s: prefix decoder refused %d bytes: %v", s.name, len(b), err)
-			return
-		}
-		class += "/refused"
 	default:
 		if len(b) < s.size {
 			ev.Violation(t, "C18/truncated-accepted/"+s.name, "%s: %d-byte string %s (need %d) decoded to %v", s.name, len(b), hx(b), s.size, back)
-			return
-		}
-		if len(b) > s.size && s.decExact {
-			ev.Violation(t, "C18/overlong-accepted/"+s.name, "%s: %d-byte string accepted by a decoder documented to take exactly %d", s.name, len(b), s.size)
 			return
 		}
 		var re []byte
@@ -461,8 +479,11 @@ func (s *flat) checkBytes(t ev.TB, edit string, b []byte) {
 			return
 		}
 		class += "/accepted"
+		if len(b) > s.size {
+			class += "-prefix"
+		}
 	}
-	ev.Case(s.name, true, class+"/"+strconv.Itoa(len(b)), class, func() any {
+	ev.Case(s.name, nontrivial, class+"/"+strconv.Itoa(len(b)), class, func() any {
 		return map[string]any{"edit": edit, "len": len(b), "bytes": hx(b)}
 	})
 }
